@@ -195,9 +195,17 @@ func genC16(e *emitter, tier string, seed int64) {
 	if tier == "thorough" {
 		rounds = 1500
 	}
+	// zones named for the first time in a round (whatever the process remembers about zones is first
+	// touched while other goroutines are running)
+	zones := []string{"Asia/Tokyo", "+5:45", "America/St_Johns", "Europe/Vatican", "-9:30", "Pacific/Chatham", "+13", "Asia/Kabul", "CST", "Australia/Eucla", "-2", "Africa/Cairo", "+6:30",
+		"America/Noronha", "Asia/Almaty", "+14", "Europe/Kiev", "-11", "Indian/Maldives", "+10:30", "Mars/Phobos", "Asia/Dubai", "-7", "Atlantic/Azores", "+3:30", "Pacific/Apia", "UTC", "+12:45",
+		"America/Lima", "Asia/Seoul", "-4", "Europe/Oslo", "+9:30", "Africa/Lagos", "-3:30", "Asia/Dhaka", "+2", "America/Bogota", "Asia/Manila", "-6"}
 	for r := 0; r < rounds; r++ {
 		g := []int{2, 3, 4, 8, 16}[rng.Intn(5)]
-		cs := concSpec{Scripts: scripts, Entries: entries, ParseSrcs: parseSrcs, Goroutines: g, OpsEach: 4 + rng.Intn(8), Seed: rng.Int63(), Points: points}
+		rs := append(append([]scriptSrc{}, scripts...),
+			scriptSrc{"tz1.p", fmt.Sprintf("default_time(ts, %q)\np(get_key(ts))\n", zones[(2*r)%len(zones)])},
+			scriptSrc{"tz2.p", fmt.Sprintf("add_key(t2, \"171113 14:14:20\")\ndefault_time(t2, %q)\nrename(t3, t2)\nrename(m9, message)\np(get_key(t3), get_key(m9), get_key(pl_msg))\n", zones[(2*r+1)%len(zones)])})
+		cs := concSpec{Scripts: rs, Entries: append(append([]string{}, entries...), "tz1.p", "tz2.p", "tz1.p", "tz2.p"), ParseSrcs: parseSrcs, Goroutines: g, OpsEach: 4 + rng.Intn(8), Seed: rng.Int63(), Points: points}
 		raw, _ := json.Marshal(cs)
 		var out map[string]any
 		if inWorker {
